@@ -21,7 +21,7 @@ Lemma ekey_eqb_eq a b : ekey_eqb a b = true <-> a = b.
 Proof. destruct a, b; cbn; split; intros H; try reflexivity; try discriminate. Qed.
 
 (* what follows a member: a comma or the closing brace *)
-Definition efollows (K : bytes) : Prop := exists c r, K = c :: r /\ (c = 44 \/ c = 125).
+Definition efollows (K : bytes) : Prop := exists c r, K = c :: r /\ (c = 44 \/ c = 125 \/ is_ws c = true).
 
 (* the found-bits as a function of which members have been seen *)
 Definition BB (a b c d f x t : bool) : N :=
@@ -99,8 +99,12 @@ Section Any.
                         else ev_content_start st = None).
 
   (* number members with any follower *)
-  Lemma efollows_nondigit K : efollows K -> exists c r, K = c :: r /\ is_digit c = false /\ is_ws c = false.
-  Proof. intros [c [r [-> [->| ->]]]]; eexists _, _; repeat split; reflexivity. Qed.
+  Lemma efollows_nondigit K : efollows K -> exists c r, K = c :: r /\ is_digit c = false /\ is_number_char c = false.
+  Proof.
+    intros [c [r [-> [->|[->|Hw]]]]]; eexists _, _; repeat split; try reflexivity.
+    - unfold is_ws in Hw. unfold is_digit. lia.
+    - unfold is_ws in Hw. unfold is_number_char, is_digit. lia.
+  Qed.
 
   Lemma em_kind_f st a old r k K : k < 65536 -> efollows K -> has_bit (ev_complete st) HAVE_KIND = false ->
     ev_out st = a ++ old ++ r -> len a = 4 -> len old = 2 ->
@@ -419,7 +423,7 @@ Section Any.
     destruct (Hn (58 :: jtext v ++ K)) as (N1 & N2 & N3 & N4 & N5 & N6 & N7).
     rewrite N1, N2, N3, N4, N5, N6, N7.
     rewrite (burn_member_skips key v K Hk Hv Hd); [reflexivity|].
-    destruct HK as [c [r [-> [->| ->]]]]; eexists _, _; split; try reflexivity; auto.
+    destruct (efollows_nondigit K HK) as [c [r [-> [_ Hnc]]]]. eexists _, _; split; [reflexivity|exact Hnc].
   Qed.
 
   Lemma stepu m (p : prog) st K : emem_ok m -> (forall k, m = EK k -> p k = false) -> Inv p st -> efollows K ->
@@ -472,6 +476,148 @@ Section Any.
     intros Hok Hnd Hall. destruct (loopu r m (fun _ => false) _ fuel tail Hok Hnd (fun _ _ => eq_refl) Inv_init) as [st' [Hl (Eo & Ec & _)]].
     exists st'. split; [exact Hl|].
     destruct (buf_full (fold_left mark (known (m :: r)) (fun _ => false))) as [Hb Hbits].
+    { intros k'. rewrite fold_mark. cbn [orb]. apply existsb_exists. exists k'. split; [apply Hall|apply ekey_eqb_eq; reflexivity]. }
+    rewrite Ec, Eo. split; assumption.
+  Qed.
+  (* ---------- white space between the tokens of the object ---------- *)
+  (* a member is  name" ws : ws value ; around it  ws " member ws , *)
+  Definition kname (k : ekey) : bytes :=
+    match k with
+    | KId => [105; 100; 34] | KPk => [112; 117; 98; 107; 101; 121; 34] | KSig => [115; 105; 103; 34]
+    | KKind => [107; 105; 110; 100; 34] | KCreated => [99; 114; 101; 97; 116; 101; 100; 95; 97; 116; 34]
+    | KTags => [116; 97; 103; 115; 34] | KContent => [99; 111; 110; 116; 101; 110; 116; 34]
+    end.
+  Definition vtext (k : ekey) (K : bytes) : bytes :=
+    match k with
+    | KId => 34 :: write_hex (e_id e) ++ 34 :: K
+    | KPk => 34 :: write_hex (e_pk e) ++ 34 :: K
+    | KSig => 34 :: write_hex (e_sig e) ++ 34 :: K
+    | KKind => dec (e_kind e) ++ K
+    | KCreated => dec (e_created e) ++ K
+    | KTags => 91 :: tags_body tes K
+    | KContent => 34 :: cj ++ 34 :: K
+    end.
+  Lemma mbody_split k K : mbody k K = kname k ++ 58 :: vtext k K.
+  Proof. destruct k; reflexivity. Qed.
+
+  Lemma dec_head n K : n < 10 ^ 25 -> exists c r, dec n ++ K = c :: r /\ is_ws c = false.
+  Proof.
+    intros P. destruct (dec_spec n P) as [Hd _]. pose proof (dec_nonempty n P) as Hne.
+    destruct (dec n) as [|d ds]; [congruence|]. inversion Hd as [|? ? Hdd _]; subst.
+    exists d, (ds ++ K). split; [reflexivity|]. unfold is_digit in Hdd. unfold is_ws. lia.
+  Qed.
+  Lemma vtext_head k K : exists c r, vtext k K = c :: r /\ is_ws c = false.
+  Proof.
+    pose proof W as (_ & _ & _ & _ & _ & _ & Hkd & Hcr & _).
+    destruct k; cbn [vtext]; try (eexists _, _; split; reflexivity).
+    - apply dec_head. assert (65536 < 10 ^ 25) by (vm_compute; reflexivity). lia.
+    - apply dec_head. assert (18446744073709551616 < 10 ^ 25) by (vm_compute; reflexivity). lia.
+  Qed.
+
+  (* white space around the colon changes nothing *)
+  Lemma member_ws k st wb wc K : wsb wb -> wsb wc ->
+    event_member st (kname k ++ wb ++ 58 :: wc ++ vtext k K) = event_member st (mbody k K).
+  Proof.
+    intros Hb Hc. destruct (vtext_head k K) as [c [r [E Hnw]]]. rewrite mbody_split, E.
+    assert (EL : eat_colon_ws (wb ++ 58 :: wc ++ c :: r) = Ok (c :: r)) by (apply eat_colon_ws_gen; assumption).
+    assert (ER : eat_colon_ws (58 :: c :: r) = Ok (c :: r)) by (apply eat_colon_ws_lit; exact Hnw).
+    set (XL := wb ++ 58 :: wc ++ c :: r) in *. set (XR := 58 :: c :: r) in *. clearbody XL XR.
+    destruct k; unfold event_member;
+      repeat match goal with |- context [starts_with ?kk (kname ?k0 ++ ?X)] =>
+        first [ replace (starts_with kk (kname k0 ++ X)) with true by reflexivity
+              | replace (starts_with kk (kname k0 ++ X)) with false by reflexivity ] end;
+      cbv iota;
+      repeat match goal with |- context [drop ?n (kname ?k0 ++ ?X)] =>
+        replace (drop n (kname k0 ++ X)) with X by reflexivity end;
+      rewrite EL, ER; reflexivity.
+  Qed.
+
+  Definition embody_ws (m : emem) (wb wc K : bytes) : bytes :=
+    match m with
+    | EK k => kname k ++ wb ++ 58 :: wc ++ vtext k K
+    | EU key v => key ++ 34 :: wb ++ 58 :: wc ++ jtext v ++ K
+    end.
+
+  Lemma stepw m (p : prog) st wb wc K : emem_ok m -> wsb wb -> wsb wc -> (forall k, m = EK k -> p k = false) -> Inv p st -> efollows K ->
+    exists st', event_member st (embody_ws m wb wc K) = Ok (st', K) /\ Inv (fold_left mark (known [m]) p) st'.
+  Proof.
+    intros Hok Hb Hc Hp Hi HK. destruct m as [k|key v]; cbn [embody_ws known fold_left].
+    - rewrite member_ws by assumption. apply step; [apply Hp; reflexivity|exact Hi|exact HK].
+    - destruct Hok as ([Hk Hn] & Hv & Hd). exists st. split; [|exact Hi]. unfold event_member.
+      destruct (Hn (wb ++ 58 :: wc ++ jtext v ++ K)) as (N1 & N2 & N3 & N4 & N5 & N6 & N7).
+      rewrite N1, N2, N3, N4, N5, N6, N7.
+      rewrite (burn_member_skips_ws key wb wc v K Hk Hb Hc Hv Hd); [reflexivity|].
+      destruct (efollows_nondigit K HK) as [c [r [-> [_ Hnc]]]]. eexists _, _; split; [reflexivity|exact Hnc].
+  Qed.
+
+  (* a member with its four runs of white space: before its opening quote, before the colon, after the colon,
+     after the value *)
+  Record wm := mkWm { wm_m : emem; wm_a : bytes; wm_b : bytes; wm_c : bytes; wm_d : bytes }.
+  Definition wm_ok (x : wm) : Prop := emem_ok (wm_m x) /\ wsb (wm_a x) /\ wsb (wm_b x) /\ wsb (wm_c x) /\ wsb (wm_d x).
+  Fixpoint wclose (ms : list wm) (tail : bytes) : bytes :=
+    match ms with
+    | [] => 125 :: tail
+    | x :: r => 44 :: wm_a x ++ 34 :: embody_ws (wm_m x) (wm_b x) (wm_c x) (wm_d x ++ wclose r tail)
+    end.
+  Lemma wclose_head ms tail : exists c r, wclose ms tail = c :: r /\ (c = 44 \/ c = 125).
+  Proof. destruct ms; cbn [wclose]; eexists _, _; split; try reflexivity; auto. Qed.
+  Lemma wfollows d ms tail : wsb d -> efollows (d ++ wclose ms tail).
+  Proof.
+    intros Hd. destruct Hd as [|c d Hc _]; cbn [app].
+    - destruct (wclose_head ms tail) as [c [r [-> Hc]]]. exists c, r. split; [reflexivity|]. destruct Hc; auto.
+    - eexists _, _. split; [reflexivity|]. auto.
+  Qed.
+  Lemma next_field_ws d c r : wsb d -> c = 44 \/ c = 125 ->
+    next_object_field (d ++ c :: r) = Ok (if c =? 125 then true else false, r).
+  Proof.
+    intros Hd Hc. unfold next_object_field. rewrite eat_ws_app; [|exact Hd|destruct Hc as [->| ->]; reflexivity].
+    destruct Hc as [->| ->]; reflexivity.
+  Qed.
+
+  Lemma loopw r : forall x (p : prog) st fuel tail, Forall wm_ok (x :: r) -> NoDup (known (map wm_m (x :: r))) ->
+    (forall k', In k' (known (map wm_m (x :: r))) -> p k' = false) -> Inv p st ->
+    exists st', event_members (Datatypes.S (length r) + fuel) st
+                  (wm_a x ++ 34 :: embody_ws (wm_m x) (wm_b x) (wm_c x) (wm_d x ++ wclose r tail)) = Ok (st', tail) /\
+                Inv (fold_left mark (known (map wm_m (x :: r))) p) st'.
+  Proof.
+    induction r as [|x2 r IH]; intros x p st fuel tail Hok Hnd Hp Hi.
+    - apply Forall_cons_iff in Hok. destruct Hok as [(Hm & Ha & Hb & Hc & Hd) _].
+      destruct (stepw (wm_m x) p st (wm_b x) (wm_c x) (wm_d x ++ wclose [] tail) Hm Hb Hc) as [st1 [Hm1 Hi1]];
+        [|exact Hi|apply wfollows; exact Hd|].
+      { intros k E. apply Hp. cbn [map known]. rewrite E. left. reflexivity. }
+      exists st1. split; [|exact Hi1]. cbn [length plus event_members].
+      rewrite (eat_ws_app (wm_a x) 34) by (try assumption; reflexivity). cbn [verify_char]. change (34 =? 34) with true. cbv iota. cbn [bind].
+      rewrite Hm1. cbn [bind wclose]. rewrite (next_field_ws (wm_d x) 125) by auto. reflexivity.
+    - apply Forall_cons_iff in Hok. destruct Hok as [(Hm & Ha & Hb & Hc & Hd) Hokr].
+      destruct (stepw (wm_m x) p st (wm_b x) (wm_c x) (wm_d x ++ wclose (x2 :: r) tail) Hm Hb Hc) as [st1 [Hm1 Hi1]];
+        [|exact Hi|apply wfollows; exact Hd|].
+      { intros k E. apply Hp. cbn [map known]. rewrite E. left. reflexivity. }
+      assert (Hsplit : known (map wm_m (x :: x2 :: r)) = known [wm_m x] ++ known (map wm_m (x2 :: r))).
+      { change (map wm_m (x :: x2 :: r)) with ([wm_m x] ++ map wm_m (x2 :: r)). apply known_app. }
+      rewrite Hsplit in Hnd, Hp. rewrite Hsplit, fold_left_app.
+      destruct (IH x2 (fold_left mark (known [wm_m x]) p) st1 fuel tail Hokr) as [st' [Hl Hi']]; [| |exact Hi1|].
+      + clear -Hnd. induction (known [wm_m x]) as [|a l IHl]; [exact Hnd|]. cbn [app] in Hnd. apply NoDup_cons_iff in Hnd. apply IHl. apply Hnd.
+      + intros k' Hin. rewrite fold_mark. apply orb_false_iff. split; [apply Hp; apply in_or_app; right; exact Hin|].
+        destruct (existsb (ekey_eqb k') (known [wm_m x])) eqn:Ex; [|reflexivity]. exfalso.
+        apply existsb_exists in Ex. destruct Ex as [k0 [Hk0 Ek0]]. apply ekey_eqb_eq in Ek0. subst k0.
+        clear -Hnd Hk0 Hin. induction (known [wm_m x]) as [|a l IHl]; [destruct Hk0|]. cbn [app] in Hnd. apply NoDup_cons_iff in Hnd. destruct Hnd as [Hna Hnd].
+        destruct Hk0 as [->|Hk0]; [apply Hna; apply in_or_app; right; exact Hin|apply IHl; assumption].
+      + exists st'. split; [|exact Hi']. cbn [length plus event_members].
+        rewrite (eat_ws_app (wm_a x) 34) by (try assumption; reflexivity). cbn [verify_char]. change (34 =? 34) with true. cbv iota. cbn [bind].
+        rewrite Hm1. cbn [bind]. cbn [wclose]. rewrite (next_field_ws (wm_d x) 44) by auto. cbn [bind]. exact Hl.
+  Qed.
+
+  Lemma members_any_order_w x r fuel tail : Forall wm_ok (x :: r) -> NoDup (known (map wm_m (x :: r))) ->
+    (forall k', In k' (known (map wm_m (x :: r)))) ->
+    exists st', event_members (Datatypes.S (length r) + fuel) (mkEv (x0 ++ x4 ++ [0; 0] ++ x8 ++ x16 ++ x48 ++ x80 ++ F) 0 0 None)
+                  (wm_a x ++ 34 :: embody_ws (wm_m x) (wm_b x) (wm_c x) (wm_d x ++ wclose r tail)) = Ok (st', tail) /\
+      ev_complete st' = 127 /\
+      ev_out st' = le32 total ++ le16 (e_kind e) ++ [0; 0] ++ le64 (e_created e) ++ e_id e ++ e_pk e ++ e_sig e ++
+                   enc_tags (e_tags e) ++ le32 (len s) ++ s ++ drop (4 + len s) (drop tsz F).
+  Proof.
+    intros Hok Hnd Hall. destruct (loopw r x (fun _ => false) _ fuel tail Hok Hnd (fun _ _ => eq_refl) Inv_init) as [st' [Hl (Eo & Ec & _)]].
+    exists st'. split; [exact Hl|].
+    destruct (buf_full (fold_left mark (known (map wm_m (x :: r))) (fun _ => false))) as [Hb Hbits].
     { intros k'. rewrite fold_mark. cbn [orb]. apply existsb_exists. exists k'. split; [apply Hall|apply ekey_eqb_eq; reflexivity]. }
     rewrite Ec, Eo. split; assumption.
   Qed.
@@ -696,6 +842,144 @@ Proof.
   rewrite take_app_len. reflexivity.
 Qed.
 
+
+(* ====================== white space between the tokens of the object ====================== *)
+Definition jvtext (e : aevent) (tj cj : bytes) (k : ekey) (K : bytes) : bytes :=
+  match k with
+  | KId => 34 :: write_hex (e_id e) ++ 34 :: K
+  | KPk => 34 :: write_hex (e_pk e) ++ 34 :: K
+  | KSig => 34 :: write_hex (e_sig e) ++ 34 :: K
+  | KKind => dec (e_kind e) ++ K
+  | KCreated => dec (e_created e) ++ K
+  | KTags => tj ++ K
+  | KContent => 34 :: cj ++ 34 :: K
+  end.
+(* a member after its opening quote: the name, its closing quote, white space, the colon, white space, the value *)
+Definition jbody_ws (e : aevent) (tj cj : bytes) (m : emem) (wb wc K : bytes) : bytes :=
+  match m with
+  | EK k => kname k ++ wb ++ 58 :: wc ++ jvtext e tj cj k K
+  | EU key v => key ++ 34 :: wb ++ 58 :: wc ++ jtext v ++ K
+  end.
+Fixpoint jwclose (e : aevent) (tj cj : bytes) (ms : list wm) (tail : bytes) : bytes :=
+  match ms with
+  | [] => 125 :: tail
+  | x :: r => 44 :: wm_a x ++ 34 :: jbody_ws e tj cj (wm_m x) (wm_b x) (wm_c x) (wm_d x ++ jwclose e tj cj r tail)
+  end.
+(* white space, the opening brace, then for every member: white space, the member, white space, a comma or the
+   closing brace; then anything *)
+Definition event_text_w (e : aevent) (tj cj : bytes) (w0 : bytes) (ms : list wm) (tail : bytes) : bytes :=
+  match ms with
+  | [] => w0 ++ 123 :: 125 :: tail
+  | x :: r => w0 ++ 123 :: wm_a x ++ 34 :: jbody_ws e tj cj (wm_m x) (wm_b x) (wm_c x) (wm_d x ++ jwclose e tj cj r tail)
+  end.
+
+Section TextW.
+  Variable e : aevent.
+  Variables tj cj : bytes.
+  Variable tes : list (list bytes).
+  Hypothesis Htxt : forall K, tj ++ K = 91 :: tags_body tes K.
+  Hypothesis Lid : len (e_id e) = 32.
+  Hypothesis Lpk : len (e_pk e) = 32.
+  Hypothesis Lsg : len (e_sig e) = 64.
+
+  Lemma jvtext_vtext k K : jvtext e tj cj k K = vtext e tes cj k K.
+  Proof. destruct k; cbn [jvtext vtext]; try reflexivity. apply Htxt. Qed.
+  Lemma jbody_ws_embody m wb wc K : jbody_ws e tj cj m wb wc K = embody_ws e tes cj m wb wc K.
+  Proof. destruct m; cbn [jbody_ws embody_ws]; [rewrite jvtext_vtext|]; reflexivity. Qed.
+  Lemma jwclose_wclose ms tail : jwclose e tj cj ms tail = wclose e tes cj ms tail.
+  Proof. induction ms as [|x r IH]; cbn [jwclose wclose]; [reflexivity|]. rewrite IH, jbody_ws_embody. reflexivity. Qed.
+  Lemma jmember_split k K : jmember e tj cj k K = kname k ++ 58 :: jvtext e tj cj k K.
+  Proof. destruct k; reflexivity. Qed.
+  Lemma jbody_ws_length m wb wc K : (kwm m + length K <= length (jbody_ws e tj cj m wb wc K))%nat.
+  Proof.
+    destruct m as [k|key v]; cbn [jbody_ws kwm].
+    - pose proof (jmember_length e tj cj tes Htxt Lid Lpk Lsg k K) as H. rewrite jmember_split in H.
+      rewrite !app_length in *. cbn [length] in *. rewrite !app_length. lia.
+    - rewrite !app_length. cbn [length]. rewrite !app_length. cbn [length]. rewrite !app_length. lia.
+  Qed.
+  Lemma jwclose_length ms tail : (list_sum (map kwm (map wm_m ms)) + length tail <= length (jwclose e tj cj ms tail))%nat /\
+                                 (length ms <= length (jwclose e tj cj ms tail))%nat.
+  Proof.
+    unfold list_sum. induction ms as [|x r [IH1 IH2]]; cbn [jwclose map fold_right length]; [split; lia|].
+    pose proof (jbody_ws_length (wm_m x) (wm_b x) (wm_c x) (wm_d x ++ jwclose e tj cj r tail)) as H.
+    rewrite !app_length in *. cbn [length]. split; lia.
+  Qed.
+End TextW.
+
+Theorem event_any_order_ws e tj cj w0 ms tail out :
+  wf_event_json e -> tags_as_json (e_tags e) = Ok tj -> json_escape (e_content e) = Ok cj ->
+  wsb w0 -> Forall wm_ok ms -> NoDup (known (map wm_m ms)) -> (forall k, In k (known (map wm_m ms))) -> event_size e <= len out ->
+  event_from_json (event_text_w e tj cj w0 ms tail) out
+  = Ok (len (event_text_w e tj cj w0 ms tail) - len tail, enc_event e, enc_event e ++ drop (event_size e) out).
+Proof.
+  intros W Htj Hcj Hw0 Hok Hnd Hall Hcap.
+  pose proof W as (Wid & Lid & Wpk & Lpk & Wsg & Lsg & Hk & Hc & Vt & Ft & Vc & Hsz).
+  destruct (tags_as_json_text (e_tags e) Vt) as [tes [H2 Htxt0]].
+  assert (Htxt : forall K, tj ++ K = 91 :: tags_body tes K).
+  { intros K. destruct (Htxt0 K) as [tj' [E1 E2]]. assert (tj' = tj) by congruence. subst tj'. exact E2. }
+  pose proof (tags_size_ge4 (e_tags e)) as Hts4. unfold event_size in Hcap, Hsz.
+  assert (Hperm : Permutation (known (map wm_m ms)) all_keys).
+  { apply NoDup_Permutation; [exact Hnd|repeat constructor; cbn; intuition discriminate|].
+    intros k. split; [intros _; destruct k; cbn; auto 8|intros _; apply Hall]. }
+  destruct ms as [|x r]; [exfalso; exact (Hall KId)|].
+  set (txt := event_text_w e tj cj w0 (x :: r) tail).
+  assert (Hlen : (256 + length tail <= length txt)%nat /\ (length r <= length txt)%nat).
+  { subst txt. cbn [event_text_w]. rewrite app_length. cbn [length]. rewrite app_length. cbn [length].
+    pose proof (jbody_ws_length e tj cj tes Htxt Lid Lpk Lsg (wm_m x) (wm_b x) (wm_c x) (wm_d x ++ jwclose e tj cj r tail)) as H1.
+    pose proof (jwclose_length e tj cj tes Htxt Lid Lpk Lsg r tail) as [H2' H3'].
+    pose proof (list_sum_perm _ _ (Permutation_map kw Hperm)) as Hs. unfold list_sum in *. cbn [map fold_right all_keys kw] in Hs.
+    pose proof (kwm_known (map wm_m (x :: r))) as Hkk. unfold list_sum in Hkk. cbn [map fold_right] in Hkk. rewrite Hkk in Hs.
+    rewrite app_length in H1. lia. }
+  destruct Hlen as [Hlen Hr6].
+  destruct (split_blocks out ltac:(lia)) as (x0 & x4 & x6 & x8 & x16 & x48 & x80 & F & Eout & L0 & L4 & L6 & L8 & L16 & L48 & L80 & EF).
+  assert (LF : len F = len out - 144) by (rewrite EF; apply len_drop).
+  unfold event_from_json, parse_json_event.
+  replace (len txt <? 204) with false by (symmetry; apply N.ltb_ge; unfold len; lia).
+  replace (len out <? 152) with false by (symmetry; apply N.ltb_ge; lia).
+  rewrite Eout at 1.
+  replace (x0 ++ x4 ++ x6 ++ x8 ++ x16 ++ x48 ++ x80 ++ F) with ((x0 ++ x4) ++ x6 ++ (x8 ++ x16 ++ x48 ++ x80 ++ F)) by (rewrite <- !app_assoc; reflexivity).
+  rewrite (put_raw_at (x0 ++ x4) x6 [0; 0] _ 6) by (rewrite ?len_app; change (len [0; 0]) with 2; lia). cbn [bind].
+  replace ((x0 ++ x4) ++ [0; 0] ++ x8 ++ x16 ++ x48 ++ x80 ++ F) with (x0 ++ x4 ++ [0; 0] ++ x8 ++ x16 ++ x48 ++ x80 ++ F) by (rewrite <- !app_assoc; reflexivity).
+  assert (Etxt : txt = w0 ++ 123 :: wm_a x ++ 34 :: embody_ws e tes cj (wm_m x) (wm_b x) (wm_c x) (wm_d x ++ wclose e tes cj r tail)).
+  { subst txt. cbn [event_text_w]. rewrite (jbody_ws_embody e tj cj tes Htxt), (jwclose_wclose e tj cj tes Htxt). reflexivity. }
+  rewrite Etxt at 1. rewrite (eat_ws_app w0 123) by (try assumption; reflexivity).
+  cbn [verify_char]. change (123 =? 123) with true. cbv iota. cbn [bind].
+  destruct (members_any_order_w e tes cj W H2 Hcj x0 x4 x8 x16 x48 x80 F L0 L4 L8 L16 L48 L80 ltac:(lia) x r (length txt - length r) tail Hok Hnd (fun k' => Hall k'))
+    as [st' [Hl [Ec Eo]]].
+  replace (Datatypes.S (length txt)) with (Datatypes.S (length r) + (length txt - length r))%nat by lia.
+  rewrite Hl. cbn [bind]. rewrite Ec. change (127 =? 127) with true. cbv iota. rewrite Eo.
+  set (total := 144 + tags_size (e_tags e) + 4 + len (e_content e)).
+  rewrite (rd32_le32 total) by (subst total; lia).
+  assert (Eenc : le32 total ++ le16 (e_kind e) ++ [0; 0] ++ le64 (e_created e) ++ e_id e ++ e_pk e ++ e_sig e ++
+                 enc_tags (e_tags e) ++ le32 (len (e_content e)) ++ e_content e ++ drop (4 + len (e_content e)) (drop (tags_size (e_tags e)) F)
+                 = enc_event e ++ drop (event_size e) out).
+  { replace (drop (4 + len (e_content e)) (drop (tags_size (e_tags e)) F)) with (drop (event_size e) out)
+      by (rewrite EF, !drop_drop; f_equal; unfold event_size; lia).
+    unfold enc_event. rewrite <- ?app_assoc. reflexivity. }
+  rewrite Eenc.
+  assert (Lenc : len (enc_event e ++ drop (event_size e) out) = len out).
+  { rewrite len_app, len_drop. unfold enc_event. rewrite !len_app, len_le32, len_le16, len_le64, len_enc_tags, len_le32, Lid, Lpk, Lsg.
+    change (len [0; 0]) with 2. unfold event_size. lia. }
+  assert (Ltot : total = len (enc_event e)).
+  { unfold enc_event. rewrite !len_app, len_le32, len_le16, len_le64, len_enc_tags, len_le32, Lid, Lpk, Lsg. change (len [0; 0]) with 2. subst total. lia. }
+  rewrite Ltot. cbn [bind].
+  replace (len (enc_event e ++ drop (event_size e) out) <? len (enc_event e)) with false by (symmetry; apply N.ltb_ge; rewrite Lenc, <- Ltot; subst total; lia).
+  rewrite take_app_len. reflexivity.
+Qed.
+
+(* the texts of event_any_order_unknown are those of event_any_order_ws without white space *)
+Definition no_ws (m : emem) : wm := mkWm m [] [] [] [].
+
+(* canonicity across white space: two texts of one event that differ in member order, unknown members and white space
+   between the tokens of the object give identical bytes *)
+Corollary event_ws_independent e tj cj w0 ms tail w0' ms' tail' out :
+  wf_event_json e -> tags_as_json (e_tags e) = Ok tj -> json_escape (e_content e) = Ok cj ->
+  wsb w0 -> Forall wm_ok ms -> NoDup (known (map wm_m ms)) -> (forall k, In k (known (map wm_m ms))) ->
+  wsb w0' -> Forall wm_ok ms' -> NoDup (known (map wm_m ms')) -> (forall k, In k (known (map wm_m ms'))) ->
+  event_size e <= len out ->
+  exists c c', event_from_json (event_text_w e tj cj w0 ms tail) out = Ok (c, enc_event e, enc_event e ++ drop (event_size e) out) /\
+               event_from_json (event_text_w e tj cj w0' ms' tail') out = Ok (c', enc_event e, enc_event e ++ drop (event_size e) out).
+Proof. intros. eexists _, _. split; apply event_any_order_ws; assumption. Qed.
 
 (* order independence: two texts with the seven members in different orders give the same bytes *)
 Corollary event_order_independent e tj cj ms ms' tail tail' out :
